@@ -55,6 +55,9 @@ func genCoreOp(r *rand.Rand, mono *ast.Schema, prof gen.OpProfile) *gen.Op {
 		opFacts(mono, doc, od, op.Variables, tags)
 		bad := false
 		for _, t := range kfTags {
+			if t == "f:var-named-id" && prof.PVarNamedID > 0 {
+				continue // wanted by this caller
+			}
 			if tags[t] {
 				bad = true
 			}
@@ -105,7 +108,7 @@ func mutProfile(r *rand.Rand) (gen.Profile, gen.DataCfg) {
 	return p, gen.DataCfg{Seed: uint64(r.Int63()), PNull: 0, ListMax: 1 + r.Intn(3), Pool: 2 + r.Intn(3)}
 }
 
-var c06Faults = []string{"errors", "transport-error", "status-500", "errors+data"}
+var c06Faults = []string{"errors", "transport-error", "transport-eof", "transport-unexpected-eof", "transport-reset", "status-500", "errors+data"}
 
 func (p c06) Gen(c *run.Ctx, idx int) (json.RawMessage, error) {
 	_, o := p.per(c)
@@ -123,11 +126,15 @@ func (p c06) Gen(c *run.Ctx, idx int) (json.RawMessage, error) {
 	prof.MaxRoots = 3
 	prof.PAlias = 0.2
 	prof.Pool = cu.spec.Data.Pool
+	if idx%4 == 3 {
+		prof.PVar, prof.PVarNamedID = 0.7, 0.6
+	}
 	op := genCoreOp(r, cu.mono, prof)
 	if op == nil {
 		return nil, nil
 	}
 	cs := c06Case{U: cu.spec, Op: *op, FaultAt: -1, Repeat: 1}
+	cs.Cfg.Hint = idx%2 == 1
 	switch r.Intn(3) {
 	case 1:
 		cs.Cfg.MaxBatch = 1
